@@ -46,22 +46,49 @@ theorem single_graph_nodup (D : List Quad) (hD : DataNodup D) (g : Option Term) 
 /-! ## Group graph patterns and solution modifiers -/
 
 /-- **eval_correct (group graph patterns).**  For `Body` patterns — BGP, UNION, FILTER, BIND,
-`GRAPH <iri>` arbitrarily nested, expressions on which the two expression evaluators agree
-(`ExprOK`) — the evaluator and `eval(D(G), P)` produce related rows in the same order, with the
-same in-scope variables, or both refuse the same re-binding. -/
-theorem body_correct (D : List Quad) (hD : DataNodup D) {p : GP} (hp : Body p) (g : Option Term) :
+`GRAPH <iri>` arbitrarily nested, `GRAPH ?x { .. }` over `Inner` patterns when the dataset has a
+named graph, expressions on which the two expression evaluators agree (`ExprOK`) — the evaluator
+and `eval(D(G), P)` produce related rows in the same order, with the same in-scope variables, or
+both refuse the same re-binding. -/
+theorem body_correct (D : List Quad) (hD : DataNodup D) {N : Prop} (hN : N → (graphNameSet D).isEmpty = false)
+    {p : GP} (hp : Body N p) (g : Option Term) :
     (∃ r Ω, select D p [g] none = .ok r ∧ eval D p (activeGraph D [g]) = .ok Ω ∧
         List.Forall₂ RelRow r.rows Ω ∧ ∀ x, x ∈ r.vars ↔ x ∈ inScope p) ∨
     (∃ x, select D p [g] none = .error (.override x) ∧ eval D p (activeGraph D [g]) = .error (.rebind x)) :=
-  SparqlL.body_correct D hD hp g
+  SparqlL.body_correct D hD hN hp g
 
-theorem body_inFragment {p : GP} (h : Body p) : inFragment p = true := by
+/-- **graph_var_correct.**  `GRAPH ?x { P }`: enumerating the de-duplicated graph names and evaluating
+`P` with `?x` *pre-bound* (`graph_rec`) gives the algebra's `⋃ₙ Join(eval(D(D[n]), P), {?x ↦ n})` —
+for `Inner` patterns (BGP / UNION / `GRAPH <iri>` / FILTERs that do not read `?x`) over a dataset
+with at least one named graph.  (Outside these hypotheses the two differ: findings
+C13-graph-var-prebound and C13-graph-var-no-named-graph.) -/
+theorem graph_var_correct (D : List Quad) (hD : DataNodup D) (hN : (graphNameSet D).isEmpty = false)
+    {x : Str} {p : GP} (hp : Inner x p) (g : Option Term) :
+    ∃ r Ω, select D (.graph (.var x) p) [g] none = .ok r ∧
+      eval D (.graph (.var x) p) (activeGraph D [g]) = .ok Ω ∧
+      List.Forall₂ RelRow r.rows Ω ∧ ∀ y, y ∈ r.vars ↔ y ∈ inScope (.graph (.var x) p) :=
+  SparqlL.graph_var_correct D hD hN hp g
+
+theorem inner_inFragment {x : Str} {p : GP} (h : Inner x p) : inFragment p = true := by
   induction h <;> simp_all [inFragment]
 
-theorem top_inFragment {p : GP} (h : Top p) : inFragment p = true := by
+theorem body_inFragment {N : Prop} {p : GP} (h : Body N p) : inFragment p = true := by
   induction h with
-  | proj h => cases h <;> simp [inFragment, body_inFragment, *]
-  | distinct h => cases h <;> simp [inFragment, body_inFragment, *]
+  | bgp ps => rfl
+  | union _ _ ihl ihr => simp [inFragment, ihl, ihr]
+  | filter e _ _ ih => simpa [inFragment] using ih
+  | extend x e _ _ ih => simpa [inFragment] using ih
+  | graphIri n _ ih => simpa [inFragment] using ih
+  | graphVar x _ hi => simpa [inFragment] using inner_inFragment hi
+
+theorem top_inFragment {N : Prop} {p : GP} (h : Top N p) : inFragment p = true := by
+  induction h with
+  | proj h => cases h with
+    | mk xs hb => simpa [inFragment] using body_inFragment hb
+    | ord xs hb => simpa [inFragment] using body_inFragment hb
+  | distinct h => cases h with
+    | mk xs hb => simpa [inFragment] using body_inFragment hb
+    | ord xs hb => simpa [inFragment] using body_inFragment hb
   | slice _ _ _ ih => simpa [inFragment] using ih
 
 def specTable (xs : List Str) (Ω : List Mu) : List (List (Option Term)) :=
@@ -70,13 +97,15 @@ def specTable (xs : List Str) (Ω : List Mu) : List (List (Option Term)) :=
 /-- **eval_correct_partial (whole SELECT queries).**  For `Slice? (Distinct? (Project (OrderBy? body)))`
 with no dataset clause the table the caller receives is the algebra's table (same variables, same
 rows, same multiplicities — here even the same order, the model's), or both sides refuse.
-*Partial*: `GRAPH ?g` and sub-selects are not covered, and the expressions must satisfy `ExprOK`;
-the unrestricted statement `EvalCorrectFull` is refuted below. -/
-theorem eval_correct_partial (D : List Quad) (hD : DataNodup D) {p : GP} (hp : Top p) :
+*Partial*: sub-selects, BIND / nested `GRAPH ?y` / filters reading `?x` inside `GRAPH ?x`, and
+`GRAPH ?x` over a dataset without named graphs are not covered, and the expressions must satisfy
+`ExprOK`; the unrestricted statement `EvalCorrectFull` is refuted below. -/
+theorem eval_correct_partial (D : List Quad) (hD : DataNodup D) {N : Prop} (hN : N → (graphNameSet D).isEmpty = false)
+    {p : GP} (hp : Top N p) :
     (∃ r Ω, Sparql.query D (.select none p) = .rows r ∧ evalQuery D (.select none p) = .rows (inScope p) Ω ∧
         r.vars = inScope p ∧ r.table = specTable (inScope p) Ω) ∨
     (∃ x, Sparql.query D (.select none p) = .err (.override x) ∧ evalQuery D (.select none p) = .err (.rebind x)) := by
-  rcases top_correct D hD hp none with ⟨r, Ω, a1, a2, a3, a4⟩ | ⟨x, a1, a2⟩
+  rcases top_correct D hD hN hp none with ⟨r, Ω, a1, a2, a3, a4⟩ | ⟨x, a1, a2⟩
   · left
     rw [activeGraph_default] at a2
     refine ⟨r, Ω, by simp [Sparql.query, execNew, a1], by simp [evalQuery, a2, top_inFragment hp], a3, ?_⟩
@@ -89,10 +118,11 @@ theorem eval_correct_partial (D : List Quad) (hD : DataNodup D) {p : GP} (hp : T
     exact ⟨x, by simp [Sparql.query, execNew, a1], by simp [evalQuery, a2, top_inFragment hp]⟩
 
 /-- **ask_correct.**  ASK over a group graph pattern answers what the algebra answers. -/
-theorem ask_correct (D : List Quad) (hD : DataNodup D) {p : GP} (hp : Body p) :
+theorem ask_correct (D : List Quad) (hD : DataNodup D) {N : Prop} (hN : N → (graphNameSet D).isEmpty = false)
+    {p : GP} (hp : Body N p) :
     (∃ a, Sparql.query D (.ask none p) = .bool a ∧ evalQuery D (.ask none p) = .bool a) ∨
     (∃ x, Sparql.query D (.ask none p) = .err (.override x) ∧ evalQuery D (.ask none p) = .err (.rebind x)) := by
-  rcases SparqlL.body_correct D hD hp none with ⟨r, Ω, a1, a2, a3, _⟩ | ⟨x, a1, a2⟩
+  rcases SparqlL.body_correct D hD hN hp none with ⟨r, Ω, a1, a2, a3, _⟩ | ⟨x, a1, a2⟩
   · left
     rw [activeGraph_default] at a2
     refine ⟨!r.rows.isEmpty, by simp [Sparql.query, execNew, a1], ?_⟩
@@ -263,22 +293,26 @@ def EvalCorrectFull : Prop :=
   ∀ (D : List Quad), DataNodup D → ∀ p : GP, inFragment p = true → ∀ a : Bool,
     Sparql.query D (.ask none p) = .bool a → evalQuery D (.ask none p) = .bool a
 
-/-- finding C13-graph-var-no-named-graph: `ASK { GRAPH ?g { } }` on the empty dataset -/
-theorem dev_empty_named :
-    Sparql.query [] (.ask none (.graph (.var "g".toList) (.bgp []))) = .bool true ∧
-    evalQuery [] (.ask none (.graph (.var "g".toList) (.bgp []))) = .bool false := ⟨rfl, rfl⟩
-
-theorem evalCorrectFull_refuted : ¬ EvalCorrectFull := by
-  intro h
-  have := h [] List.Pairwise.nil (.graph (.var "g".toList) (.bgp [])) rfl true dev_empty_named.1
-  rw [dev_empty_named.2] at this
-  cases this
-
 /-- finding C13-graph-var-prebound: `ASK { GRAPH ?g { ?s ?p ?o FILTER(BOUND(?g)) } }` -/
 theorem dev_graph_prebind :
     let D := [q (iriT "x:a") (iriT "x:p") (iriT "x:b") (some (iriT "x:g1"))]
     let p := GP.graph (.var "g".toList) (.filter (.bound "g".toList) (.bgp [spo]))
     Sparql.query D (.ask none p) = .bool true ∧ evalQuery D (.ask none p) = .bool false := ⟨rfl, rfl⟩
+
+theorem evalCorrectFull_refuted : ¬ EvalCorrectFull := by
+  intro h
+  have := h [q (iriT "x:a") (iriT "x:p") (iriT "x:b") (some (iriT "x:g1"))]
+    (List.pairwise_singleton _ _)
+    (.graph (.var "g".toList) (.filter (.bound "g".toList) (.bgp [spo]))) rfl true dev_graph_prebind.1
+  rw [dev_graph_prebind.2] at this
+  cases this
+
+/-- finding C13-graph-var-no-named-graph: `ASK { GRAPH ?g { } }` on the empty dataset.
+(Stated for the code as it is: once notes/fixes/C13-graph-var-no-named-graph.diff is applied the
+extractor sets `graphEmptyFixed`, the model follows, and this witness has to go with the finding.) -/
+theorem dev_empty_named :
+    Sparql.query [] (.ask none (.graph (.var "g".toList) (.bgp []))) = .bool true ∧
+    evalQuery [] (.ask none (.graph (.var "g".toList) (.bgp []))) = .bool false := ⟨rfl, rfl⟩
 
 /-- finding C13-subselect-leak: `ASK { { SELECT ?s { ?s ?p ?o } } FILTER(BOUND(?p)) }` -/
 theorem dev_proj_leak :
@@ -286,7 +320,8 @@ theorem dev_proj_leak :
     let p := GP.filter (.bound "p".toList) (.project (.bgp [spo]) ["s".toList])
     Sparql.query D (.ask none p) = .bool true ∧ evalQuery D (.ask none p) = .bool false := ⟨rfl, rfl⟩
 
-/-- finding C13-logical-or-and-error: `?x || true` with `?x` unbound -/
+/-- finding C13-logical-or-and-error: `?x || true` with `?x` unbound.  (As `dev_empty_named`: goes
+away with notes/fixes/C13-logical-or-and-error.diff, which sets `orAndLenient`.) -/
 theorem dev_or_strict : ¬ ExprOK (.or (.var "x".toList) (.const (boolTerm true))) := by
   intro h
   have := (h {} [] (fun _ => rfl)).1
@@ -312,14 +347,27 @@ example : ¬ DataNodup [q (iriT "x:a") (iriT "x:p") (.lang "a".toList "en".toLis
   unfold DataNodup; decide
 
 /-- `SELECT DISTINCT ?s ?z { { ?s ?p ?o . _:a ?p << ?s ?q ?o >> FILTER(!BOUND(?x)) } UNION
-{ GRAPH <x:g1> { ?s ?p ?o } BIND(isIRI(?o) AS ?z) } } ORDER BY … OFFSET 1 LIMIT 2` -/
-example : Top (.slice (.distinct (.project (.orderBy
-    (.union
+{ GRAPH <x:g1> { ?s ?p ?o } BIND(isIRI(?o) AS ?z) } UNION { GRAPH ?g { ?s ?p ?o FILTER(isIRI(?o)) } } }
+ORDER BY … OFFSET 1 LIMIT 2` -/
+example : Top True (.slice (.distinct (.project (.orderBy
+    (.union (.union
       (.filter (.not (.bound "x".toList)) (.bgp [spo, ⟨.bnode "a".toList, vT "p", .triple (vT "s") (vT "q") (vT "o")⟩]))
-      (.extend (.graph (.iri "x:g1".toList) (.bgp [spo])) "z".toList (.call .isIri (.var "o".toList)))))
+      (.extend (.graph (.iri "x:g1".toList) (.bgp [spo])) "z".toList (.call .isIri (.var "o".toList))))
+      (.graph (.var "g".toList) (.filter (.call .isIri (.var "o".toList)) (.bgp [spo])))))
     ["s".toList, "z".toList])) 1 (some 2)) :=
-  .slice _ _ (.distinct (.ord _ (.union
+  .slice _ _ (.distinct (.ord _ (.union (.union
     (.filter _ (exprOK_termLevel (.not (.bound _))) (.bgp _))
-    (.extend _ _ (exprOK_termLevel (.isIri (.var _))) (.graphIri _ (.bgp _))))))
+    (.extend _ _ (exprOK_termLevel (.isIri (.var _))) (.graphIri _ (.bgp _))))
+    (.graphVar _ trivial (.filter _ (exprOK_termLevel (.isIri (.var _))) (by decide) (.bgp _))))))
+
+/-- a dataset with a named graph, as the `GRAPH ?x` case requires -/
+example : (graphNameSet [q (iriT "x:a") (iriT "x:p") (iriT "x:b") (some (iriT "x:g1"))]).isEmpty = false := by decide
+
+/-! ## The attribution tool -/
+
+/-- **evalD_none.**  the evaluator with switchable deviations that the driver uses to *attribute*
+oracle failures to known findings is, with every switch off, the specification itself -/
+theorem evalD_none (D : List Quad) (qq : Query) : SparqlDev.evalQueryD {} D qq = evalQuery D qq :=
+  evalQueryD_none D qq
 
 end SophiaProofs.C13
